@@ -104,7 +104,7 @@ CHECKS.update({
    technique="bounded model checking of method-call histories by symbolic execution of the real Python (PYSYM) + z3"),
  'C20': dict(engine="PYSYM", category="other",
    text="Partial: (1) the body of the multiplication loop of _Element.__mul__, extracted from the real function's AST, executed once from an ARBITRARY 128-bit state (z, v, f2): z3 decides it equals the textbook shift-and-add step over GF(2)[x]/(x^128+x^7+x^2+x+1) and preserves the invariant -- an inductive argument covering all 2^384 states; (2) whole __mul__, commutativity, distributivity and inverse on operands with 4 free bits at positions 0/60/124; (3) split(): every coefficient is a distinct 16-byte RNG draw, the constant term is the secret and share i is the Horner evaluation at x=i (+x^k for ssss) with secret and coefficients symbolic at full width; (4) combine(split()) returns the secret for every k-subset in every order and refuses duplicates, on 4-bit-window secrets/coefficients.",
-   note="Field laws of __mul__ at full width are NOT claimed: z3/cvc5 cannot decide GF(2^128) multiplier identities (measured: 2x6 symbolic bits already unknown at 150 s), and the bin(bit)*128 mask idiom forks once per symbolic bit, so reconstruction with full-width symbolic operands on both sides is out of reach; k <= 3 (4 in thorough for split), n <= 4.",
+   note="Field laws of __mul__ at full width are NOT claimed: z3/cvc5 cannot decide GF(2^128) multiplier identities (measured: 2x6 symbolic bits already unknown at 150 s), and the bin(bit)*128 mask idiom forks once per symbolic bit, so reconstruction with full-width symbolic operands on both sides is out of reach; split() structure for k <= 3, n <= 4; reconstruction combine(split()) for k = 2 only (k = 3 exceeds the time / memory budgets on every window, measured).",
    technique="inductive step on the loop body extracted from the real AST + bounded symbolic execution (PYSYM) + z3"),
 })
 
